@@ -22,6 +22,9 @@ contract(
     # (ii): inside a mutator the loose value is (re-)read under the lock of that very ref
     requires=["holds_lock(uf('refpath', name))"],
     raises={ANY: None},
+    # ghost marker on what a read performed NOW returns (used by locked_ref.get: the compared value is never one remembered
+    # from before the lock was taken)
+    ensures=["result is None or upred('read_under_lock', result)"],
     note="call-site obligation only; the body (a plain file read) is not verified",
 )
 contract(
@@ -94,5 +97,9 @@ contract(
 contract(
     prop=["C08"], file=R, func="locked_ref.get",
     params={"self": "obj:locked_ref"}, returns="opaque",
-    requires=LOCKED, raises={ANY: LOCKED}, ensures=LOCKED, options=LOPTS,
+    requires=LOCKED, raises={ANY: LOCKED},
+    # the value handed to ensure_equals() was read after the lock was taken: from the loose file (read_loose_ref) or from the
+    # packed table consulted now (the .get() on it; assumed marker by method name), never a value kept from before
+    ensures=LOCKED + ["result is None or upred('read_under_lock', result)"],
+    options=dict(LOPTS, opaque_posts={"get": ["result is None or upred('read_under_lock', result)"]}),
 )
